@@ -94,7 +94,7 @@ Theorem C17_enacted_only_when_passed :
     step sls s (OBegin t) = Ok s' (OutClosed evs) ->
     forall pid oc, In (pid, oc) evs ->
       exists p, In p (props s) /\ p_id p = pid /\
-        ev_ok (mkState (params s) (coms s) (props s) (votes s) (next_id s) (bals s) (supply s) t (height s + 1) (plan s)) p oc.
+        ev_ok (mkState (params s) (coms s) (props s) (votes s) (next_id s) (bals s) (supply s) t (height s + 1) (plan s) (enacted s)) p oc.
 Proof. exact begin_block_events. Qed.
 Print Assumptions C17_enacted_only_when_passed.
 
@@ -187,6 +187,238 @@ Theorem C17_committee_change_unroutable :
 Proof. intros sls s proposer cid s' x. apply committee_change_refused. Qed.
 Print Assumptions C17_committee_change_unroutable.
 
+(** * 3. the permission matrix: which permission type allows which proposal type *)
+
+(* The Allows methods, row by row (one type assertion each): God allows everything;
+   Text only text proposals; SoftwareUpgrade only software-upgrade proposals (not
+   their cancellation); each x/community permission exactly its own proposal type;
+   ParamsChange only parameter-change proposals, subject to the field-level check
+   of section 1.  [ctype_of] is the Go type of the proposal. *)
+Theorem C17_permission_matrix :
+  forall ps c,
+    perm_allows PermGod ps c = Some true /\
+    perm_allows PermText ps c = Some (ctype_eqb (ctype_of c) TText) /\
+    perm_allows PermUpgrade ps c = Some (ctype_eqb (ctype_of c) TUpgrade) /\
+    perm_allows PermCdpRepay ps c = Some (ctype_eqb (ctype_of c) TCdpRepay) /\
+    perm_allows PermCdpWithdraw ps c = Some (ctype_eqb (ctype_of c) TCdpWithdraw) /\
+    perm_allows PermLendWithdraw ps c = Some (ctype_eqb (ctype_of c) TLendWithdraw) /\
+    forall acs, perm_allows (PermParams acs) ps c =
+      if ctype_eqb (ctype_of c) TParam then params_allows acs ps c else Some false.
+Proof. exact permission_matrix. Qed.
+Print Assumptions C17_permission_matrix.
+
+(* the same as a table over the two finite type lists: 7 permission types x 10 proposal types *)
+Definition all_ptypes := [PTGod; PTText; PTParams; PTUpgrade; PTCdpRepay; PTCdpWithdraw; PTLendWithdraw].
+Definition all_ctypes := [TText; TParam; TUpgrade; TCommitteeChange; TLendDeposit; TLendWithdraw; TCdpRepay; TCdpWithdraw;
+                          TCancelUpgrade; TPoolSpend].
+Example C17_permission_type_table :
+  map (fun p => map (type_allows p) all_ctypes) all_ptypes =
+  (*                    text   param  upgr   cchg   ldep   lwdr   crep   cwdr   cancel spend *)
+  [ (* God          *) [true;  true;  true;  true;  true;  true;  true;  true;  true;  true ];
+    (* Text         *) [true;  false; false; false; false; false; false; false; false; false];
+    (* ParamsChange *) [false; true;  false; false; false; false; false; false; false; false];
+    (* SoftwareUpgr *) [false; false; true;  false; false; false; false; false; false; false];
+    (* CDPRepayDebt *) [false; false; false; false; false; false; true;  false; false; false];
+    (* CDPWithdraw  *) [false; false; false; false; false; false; false; true;  false; false];
+    (* LendWithdraw *) [false; false; false; false; false; true;  false; false; false; false] ].
+Proof. vm_compute. reflexivity. Qed.
+
+(* a permission whose type cannot allow the proposal's type refuses it in every state
+   (no panic either); conversely Allows = true needs a true cell of the table; and for
+   the six permission types without parameters the table is the whole answer *)
+Theorem C17_wrong_type_refused :
+  forall pm ps c, type_allows (ptype_of pm) (ctype_of c) = false -> perm_allows pm ps c = Some false.
+Proof. exact type_refuses. Qed.
+Print Assumptions C17_wrong_type_refused.
+
+Theorem C17_allowed_needs_type :
+  forall pm ps c, perm_allows pm ps c = Some true -> type_allows (ptype_of pm) (ctype_of c) = true.
+Proof. exact allows_type. Qed.
+Print Assumptions C17_allowed_needs_type.
+
+Theorem C17_table_exact_without_params :
+  forall pm ps c, ptype_of pm <> PTParams ->
+    perm_allows pm ps c = Some (type_allows (ptype_of pm) (ctype_of c)).
+Proof. exact allows_exact. Qed.
+Print Assumptions C17_table_exact_without_params.
+
+(* each community permission allows its own proposal type and nothing else *)
+Theorem C17_community_permissions_exact :
+  forall ps c,
+    (perm_allows PermCdpRepay ps c = Some true <-> exists t x ok, body c = CCdpRepay t x ok) /\
+    (perm_allows PermCdpWithdraw ps c = Some true <-> exists t x ok, body c = CCdpWithdraw t x ok) /\
+    (perm_allows PermLendWithdraw ps c = Some true <-> exists a ok, body c = CLendWithdraw a ok).
+Proof. exact community_permissions_exact. Qed.
+Print Assumptions C17_community_permissions_exact.
+
+(* lend-deposit, committee-change, cancel-upgrade and pool-spend proposals: God only ... *)
+Theorem C17_only_god_allows_the_rest :
+  forall pm ps c,
+    ctype_of c = TLendDeposit \/ ctype_of c = TCommitteeChange \/ ctype_of c = TCancelUpgrade \/ ctype_of c = TPoolSpend ->
+    perm_allows pm ps c = Some true -> pm = PermGod.
+Proof. exact only_god_allows_the_rest. Qed.
+Print Assumptions C17_only_god_allows_the_rest.
+
+(* ... and the first two cannot be submitted to any committee at all: they are not
+   registered against PubProposal, so no MsgSubmitProposal carrying one decodes *)
+Theorem C17_lend_deposit_and_committee_change_never_submitted :
+  forall sls s proposer cid c,
+    ctype_of c = TLendDeposit \/ ctype_of c = TCommitteeChange ->
+    step sls s (OSubmit proposer cid c) = Err.
+Proof. exact undecodable_never_submitted. Qed.
+Print Assumptions C17_lend_deposit_and_committee_change_never_submitted.
+
+(** * 4. no permission: no submission, no enactment *)
+
+Theorem C17_no_permission_no_submit :
+  forall sls s proposer cid c cm,
+    find_com s cid = Some cm ->
+    (forall pm, In pm (c_perms cm) -> perm_allows pm (params s) c = Some false) ->
+    step sls s (OSubmit proposer cid c) = Err.
+Proof. exact no_permission_no_submit. Qed.
+Print Assumptions C17_no_permission_no_submit.
+
+(* the re-check at enactment: Invalid, the state untouched *)
+Theorem C17_no_permission_no_enact :
+  forall sls s p cm,
+    find_com s (p_com p) = Some cm ->
+    (forall pm, In pm (c_perms cm) -> perm_allows pm (params s) (p_content p) = Some false) ->
+    attempt_enact sls s p = Ok s Invalid.
+Proof. exact no_permission_no_enact. Qed.
+Print Assumptions C17_no_permission_no_enact.
+
+(* in terms of declared types alone *)
+Theorem C17_wrong_type_no_submit_no_enact :
+  forall sls s cm c,
+    (forall pm, In pm (c_perms cm) -> type_allows (ptype_of pm) (ctype_of c) = false) ->
+    (forall proposer cid, find_com s cid = Some cm -> step sls s (OSubmit proposer cid c) = Err) /\
+    (forall p, p_content p = c -> find_com s (p_com p) = Some cm -> attempt_enact sls s p = Ok s Invalid).
+Proof. exact wrong_type_no_submit_no_enact. Qed.
+Print Assumptions C17_wrong_type_no_submit_no_enact.
+
+(* what every stored proposal went through: decodable, ValidateBasic, a route, and a
+   permission of its committee allowing it; the only change is the new proposal record *)
+Theorem C17_stored_proposal_exact :
+  forall sls s proposer cid c s' x,
+    step sls s (OSubmit proposer cid c) = Ok s' x ->
+    decodable c = true /\ validate_basic c = true /\ has_route c = true /\
+    exists cm pm, find_com s cid = Some cm /\ In pm (c_perms cm) /\
+      perm_allows pm (params s) c = Some true /\ type_allows (ptype_of pm) (ctype_of c) = true /\
+      s' = mkState (params s) (coms s) (props s ++ [mkProp (next_id s) cid (now s + c_duration cm) c])
+                   (votes s) (S (next_id s)) (bals s) (supply s) (now s) (height s) (plan s) (enacted s).
+Proof. exact submit_spec. Qed.
+Print Assumptions C17_stored_proposal_exact.
+
+(* every proposal a begin block enacts is of a type one of its committee's permissions
+   allows (the committee as it stands when the block starts), passes ValidateBasic and has a route *)
+Theorem C17_enacted_only_with_permission :
+  forall sls s t s' evs,
+    step sls s (OBegin t) = Ok s' (OutClosed evs) ->
+    forall pid, In (pid, Passed) evs ->
+    exists p cm pm, In p (props s) /\ p_id p = pid /\ find_com s (p_com p) = Some cm /\ In pm (c_perms cm) /\
+      type_allows (ptype_of pm) (ctype_of (p_content p)) = true /\
+      validate_basic (p_content p) = true /\ has_route (p_content p) = true.
+Proof. exact begin_block_passed_allowed. Qed.
+Print Assumptions C17_enacted_only_with_permission.
+
+(* which handler ran: the counters of community keeper calls move only at a Passed
+   enactment, by exactly one, in the slot of the proposal's own type *)
+Theorem C17_enactment_runs_its_own_handler :
+  forall sls s p s0 oc, attempt_enact sls s p = Ok s0 oc ->
+    enacted s0 = match oc with Passed => bump (p_content p) (enacted s) | _ => enacted s end
+    /\ (oc <> Passed -> plan s0 = plan s).
+Proof. exact attempt_enact_enacted. Qed.
+Print Assumptions C17_enactment_runs_its_own_handler.
+
+Theorem C17_messages_run_no_handler :
+  forall sls s o s' x, is_msg o -> step sls s o = Ok s' x -> enacted s' = enacted s.
+Proof. exact msg_no_enact. Qed.
+Print Assumptions C17_messages_run_no_handler.
+
+Theorem C17_nothing_passed_no_effect :
+  forall sls s t s' evs,
+    step sls s (OBegin t) = Ok s' (OutClosed evs) -> (forall pid, ~ In (pid, Passed) evs) ->
+    params s' = params s /\ plan s' = plan s /\ enacted s' = enacted s.
+Proof. exact begin_block_nothing_passed_no_effect. Qed.
+Print Assumptions C17_nothing_passed_no_effect.
+
+(* for all histories: whatever the proposal store holds was decodable, passed ValidateBasic
+   and has a route; in particular no lend deposit, committee change, pool spend or content
+   with a refused title is ever stored *)
+Theorem C17_store_holds_only_routable_valid_proposals :
+  forall sls ops s, store_ok s -> store_ok (run sls s ops).
+Proof. exact store_ok_run. Qed.
+Print Assumptions C17_store_holds_only_routable_valid_proposals.
+
+Theorem C17_never_stored :
+  forall sls ops s p, store_ok s -> In p (props (run sls s ops)) ->
+    ctype_of (p_content p) <> TLendDeposit /\ ctype_of (p_content p) <> TCommitteeChange /\
+    ctype_of (p_content p) <> TPoolSpend /\ (forall c, p_content p <> CBadMeta c).
+Proof. exact never_stored. Qed.
+Print Assumptions C17_never_stored.
+
+(** * 5. votes; deleted committees *)
+
+(* An accepted vote, exactly: a stored proposal of an existing committee, strictly before
+   its deadline, a type in yes/no/abstain; member committees accept members only and yes
+   only; token committees anybody and all three types (quorum counts all three by
+   balance at tally time, the threshold yes against yes+no: definition [tally]). *)
+Theorem C17_vote_accepted_exact :
+  forall sls s pid voter vt s' x,
+    step sls s (OVote pid voter vt) = Ok s' x ->
+    exists p cm, find_prop s pid = Some p /\ now s < p_deadline p /\ find_com s (p_com p) = Some cm /\
+      1 <= vt <= 3 /\
+      (c_kind cm = CMember -> mem_nat voter (c_members cm) = true /\ vt = 1) /\
+      s' = set_pv s (props s) (vote_put (mkVote pid voter vt (now s)) (votes s)).
+Proof. exact vote_accepted_spec. Qed.
+Print Assumptions C17_vote_accepted_exact.
+
+Theorem C17_vote_at_or_after_deadline_refused :
+  forall sls s pid voter vt p,
+    find_prop s pid = Some p -> p_deadline p <= now s -> step sls s (OVote pid voter vt) = Err.
+Proof. exact vote_at_deadline_refused. Qed.
+Print Assumptions C17_vote_at_or_after_deadline_refused.
+
+Theorem C17_vote_without_proposal_or_committee_refused :
+  forall sls s pid voter vt,
+    find_prop s pid = None \/ (exists p, find_prop s pid = Some p /\ find_com s (p_com p) = None) ->
+    step sls s (OVote pid voter vt) = Err.
+Proof. exact vote_without_proposal_or_committee_refused. Qed.
+Print Assumptions C17_vote_without_proposal_or_committee_refused.
+
+(* a repeated vote replaces the voter's earlier vote on that proposal: afterwards the
+   store holds exactly the new vote for (proposal, voter) and every other vote as before *)
+Theorem C17_vote_replaces_earlier_vote :
+  forall sls s pid voter vt s' x,
+    votes_sorted (votes s) -> step sls s (OVote pid voter vt) = Ok s' x ->
+    votes_sorted (votes s') /\
+    (forall w, In w (votes s') <->
+       (w = mkVote pid voter vt (now s) \/ (In w (votes s) /\ ~ (v_pid w = pid /\ v_voter w = voter)))) /\
+    (forall w, In w (votes s') -> v_pid w = pid -> v_voter w = voter -> w = mkVote pid voter vt (now s)).
+Proof. exact vote_replaces_earlier_vote. Qed.
+Print Assumptions C17_vote_replaces_earlier_vote.
+
+(* in every state reachable from one with a strictly ordered vote store (e.g. an empty
+   one), no two stored votes share proposal and voter: each voter is counted once *)
+Theorem C17_one_vote_per_voter_always :
+  forall sls ops s, votes_sorted (votes s) ->
+    forall v w, In v (votes (run sls s ops)) -> In w (votes (run sls s ops)) ->
+      v_pid v = v_pid w /\ v_voter v = v_voter w -> v = w.
+Proof.
+  intros sls ops s Hs v w Hv Hw Hk.
+  exact (votes_sorted_unique _ (votes_sorted_run sls ops s Hs) v w Hv Hw Hk).
+Qed.
+Print Assumptions C17_one_vote_per_voter_always.
+
+(* deleting a committee closes all of its proposals at once (outcome Failed); none is left to be enacted *)
+Theorem C17_delete_committee_closes_its_proposals :
+  forall sls s id s' x,
+    step sls s (ODeleteCommittee id) = Ok s' x ->
+    find_com s' id = None /\ (forall q, In q (props s') -> p_com q <> id /\ In q (props s)) /\
+    x = OutClosed (map (fun p => (p_id p, Failed)) (filter (fun p => Nat.eqb (p_com p) id) (props s))).
+Proof. exact delete_committee_closes_its_proposals. Qed.
+Print Assumptions C17_delete_committee_closes_its_proposals.
+
 (** * Non-vacuity *)
 
 Definition w_debt : jmap :=
@@ -208,14 +440,14 @@ Proof. cbv zeta. repeat split; try (vm_compute; reflexivity). eexists. vm_comput
 (* a first-past-the-post member committee: submit, two of three vote, the next block enacts *)
 Example C17_lifecycle_nonvacuous :
   let c := mkCom 1 CMember [0; 1; 2]%nat [PermParams [w_debt_ac]] 500000000000000000 100 FPTP in
-  let s := mkState [JNull; JNull; enc_struct debt_schema w_debt] [c] [] [] 1 [0; 0; 0] 0 0 2 0 in
+  let s := mkState [JNull; JNull; enc_struct debt_schema w_debt] [c] [] [] 1 [0; 0; 0] 0 0 2 0 [0; 0; 0; 0] in
   let doc := JObj [("denom", JStr (SText "usdx")); ("conversion_factor", JStr (SInt 6)); ("debt_floor", JStr (SInt 5))] in
   let ops := [OSubmit 0 1 (CParam [(PKnown 2, Some doc)]); OVote 1 0 1; OBegin 10; OVote 1 1 1] in
   let s1 := run std_slots s ops in
   good s /\ inv_b s = true /\ List.length (props s1) = 1%nat /\
   step std_slots s1 (OBegin 20) =
     Ok (mkState [JNull; JNull; JObj [("denom", JStr (SText "usdx")); ("conversion_factor", JStr (SInt 6)); ("debt_floor", JStr (SInt 5))]]
-                [c] [] [] 2 [0; 0; 0] 0 20 4 0) (OutClosed [(1%nat, Passed)]).
+                [c] [] [] 2 [0; 0; 0] 0 20 4 0 [0; 0; 0; 0]) (OutClosed [(1%nat, Passed)]).
 Proof.
   cbv zeta. split; [|repeat split; vm_compute; reflexivity].
   split.
@@ -236,11 +468,52 @@ Proof. vm_compute. reflexivity. Qed.
    begin blocker closes it as Invalid, schedules nothing and does not panic *)
 Example C17_stale_upgrade_closed_invalid :
   let c := mkCom 1 CMember [0; 1]%nat [PermOther] 500000000000000000 50 AtDeadline in
-  let s := mkState [] [c] [] [] 1 [0; 0] 0 0 2 0 in
+  let s := mkState [] [c] [] [] 1 [0; 0] 0 0 2 0 [0; 0; 0; 0] in
   let s1 := run [] s [OSubmit 0 1 (CUpgrade 4); OVote 1 0 1; OBegin 10; OVote 1 1 1; OBegin 20] in
   List.length (props s1) = 1%nat /\ height s1 = 4 /\
-  step [] s1 (OBegin 50) = Ok (mkState [] [c] [] [] 2 [0; 0] 0 50 5 0) (OutClosed [(1%nat, Invalid)]) /\
+  step [] s1 (OBegin 50) = Ok (mkState [] [c] [] [] 2 [0; 0] 0 50 5 0 [0; 0; 0; 0]) (OutClosed [(1%nat, Invalid)]) /\
   (* had the votes and the deadline come in time, it would have been scheduled *)
   step [] (run [] s [OSubmit 0 1 (CUpgrade 40); OVote 1 0 1]) (OBegin 50)
-    = Ok (mkState [] [c] [] [] 2 [0; 0] 0 50 3 40) (OutClosed [(1%nat, Passed)]).
+    = Ok (mkState [] [c] [] [] 2 [0; 0] 0 50 3 40 [0; 0; 0; 0]) (OutClosed [(1%nat, Passed)]).
+Proof. cbv zeta. repeat split; vm_compute; reflexivity. Qed.
+
+(* a committee holding only CommunityCDPRepayDebtPermission: its repay proposal is stored,
+   voted and enacted (third counter); a withdraw-collateral proposal is refused at
+   submission; so is the repay proposal with a blank collateral type (ValidateBasic) *)
+Example C17_community_lifecycle_nonvacuous :
+  let c := mkCom 1 CMember [0; 1]%nat [PermCdpRepay] 500000000000000000 100 FPTP in
+  let s := mkState [] [c] [] [] 1 [0; 0] 0 0 2 0 [0; 0; 0; 0] in
+  let repay := CCdpRepay "xrp-a" ("usdx", 1000000) true in
+  step [] (run [] s [OSubmit 0 1 repay; OVote 1 0 1]) (OBegin 10)
+    = Ok (mkState [] [c] [] [] 2 [0; 0] 0 10 3 0 [0; 0; 1; 0]) (OutClosed [(1%nat, Passed)])
+  /\ step [] s (OSubmit 0 1 (CCdpWithdraw "xrp-a" ("xrp", 1000000) true)) = Err
+  /\ step [] s (OSubmit 0 1 (CCdpRepay " " ("usdx", 1000000) true)) = Err
+  /\ step [] s (OSubmit 0 1 (CBadMeta repay)) = Err
+  (* the keeper call fails when the proposal is decided (the oracle says so): closed Invalid, no counter moves *)
+  /\ step [] (run [] s [OSubmit 0 1 repay; OVote 1 0 1; OOracle [(1%nat, false)]]) (OBegin 10)
+    = Ok (mkState [] [c] [] [] 2 [0; 0] 0 10 3 0 [0; 0; 0; 0]) (OutClosed [(1%nat, Invalid)]).
+Proof. cbv zeta. repeat split; vm_compute; reflexivity. Qed.
+
+(* a God committee: its lend-deposit proposal cannot even be submitted; it can cancel a scheduled upgrade *)
+Example C17_god_committee_nonvacuous :
+  let c := mkCom 1 CMember [0]%nat [PermGod] 500000000000000000 100 FPTP in
+  let s := mkState [] [c] [] [] 1 [0] 0 0 2 40 [0; 0; 0; 0] in
+  step [] s (OSubmit 0 1 (CLendDeposit [("ukava", 5)] true)) = Err
+  /\ step [] (run [] s [OSubmit 0 1 CCancelUpgrade; OVote 1 0 1]) (OBegin 10)
+    = Ok (mkState [] [c] [] [] 2 [0] 0 10 3 0 [0; 0; 0; 0]) (OutClosed [(1%nat, Passed)]).
+Proof. cbv zeta. repeat split; vm_compute; reflexivity. Qed.
+
+(* a token committee (quorum 0.5, threshold 0.5, supply 1000): 400 yes and 200 abstain
+   reach the quorum and pass; 400 yes and 200 no pass (0.667); 200 yes and 400 no fail;
+   a second vote of the same voter replaces the first *)
+Example C17_token_tally_nonvacuous :
+  let c := mkCom 1 (CToken 500000000000000000) [0]%nat [PermText] 500000000000000000 100 AtDeadline in
+  let s := mkState [] [c] [] [] 1 [400; 200; 400] 1000 0 2 0 [0; 0; 0; 0] in
+  let go votes := match step [] (run [] s (OSubmit 0 1 CText :: votes)) (OBegin 100) with Ok _ o => Some o | _ => None end in
+  go [OVote 1 0 1; OVote 1 1 3] = Some (OutClosed [(1%nat, Passed)])
+  /\ go [OVote 1 0 1] = Some (OutClosed [(1%nat, Failed)])
+  /\ go [OVote 1 0 1; OVote 1 1 2] = Some (OutClosed [(1%nat, Passed)])
+  /\ go [OVote 1 0 2; OVote 1 1 1] = Some (OutClosed [(1%nat, Failed)])
+  /\ go [OVote 1 0 2; OVote 1 1 1; OVote 1 0 1] = Some (OutClosed [(1%nat, Passed)])
+  /\ List.length (votes (run [] s [OSubmit 0 1 CText; OVote 1 0 2; OVote 1 1 1; OVote 1 0 1])) = 2%nat.
 Proof. cbv zeta. repeat split; vm_compute; reflexivity. Qed.
